@@ -570,9 +570,22 @@ pub fn run(a: &Args) -> Batch {
         cases.push(Case { term, post: String::new(), json: json!({"kind": "NewBDL_O.tbl", "file": label, "parser": (["accepted", "rejected", "crashed"][cls])}), nontrivial: true });
     }
     let _ = std::fs::remove_file(&scratch);
-    let building_stats = crate::p18c::buildings(&mut rt, nt, &mut impl_findings);
+    let mut building_texts = vec![];
+    let building_stats = crate::p18c::buildings(&mut rt, nt, &mut impl_findings, &mut building_texts);
+    // whole buildings also go through the Coq model of the SPACE and wall readers: printed ones, and the real files
+    let mut building_cases: Vec<(String, String)> = building_texts.iter().take(if a.thorough { usize::MAX } else { 40 }).enumerate().map(|(i, t)| (format!("printed building {}", i), t.clone())).collect();
+    for &i in order.iter().take(nreal) {
+        let (name, text) = &real[i];
+        building_cases.push((format!("real file {}", name), text.clone()));
+    }
+    let mut nbuild = 0usize;
+    for (label, t) in &building_cases {
+        let (term, cls) = crate::p18c::building_case(t);
+        nbuild += 1;
+        cases.push(Case { term, post: String::new(), json: json!({"kind": "building (spaces and walls)", "file": label, "data_new": (["built", "rejected", "crashed"][cls])}), nontrivial: cls == 0 });
+    }
     Batch {
-        imports: "From Coq Require Import ZArith NArith QArith List String.\nFrom CTE Require Import Base.Num Model.Bdl Model.BdlCase Model.Kyg Model.KygCase Model.Tbl Model.TblCase Model.BdlTyped Model.TypedCase Model.C18Case.\nLocal Open Scope string_scope.".into(),
+        imports: "From Coq Require Import ZArith NArith QArith List String.\nFrom CTE Require Import Base.Num Model.Bdl Model.BdlCase Model.Kyg Model.KygCase Model.Tbl Model.TblCase Model.BdlTyped Model.TypedCase Model.BdlTypedEnv Model.BuildingCase Model.C18Case.\nLocal Open Scope string_scope.".into(),
         case_ty: "c18any".into(),
         agree: "agree_C18any".into(),
         cases,
@@ -580,6 +593,6 @@ pub fn run(a: &Args) -> Batch {
         rule: "real files = BDL text of the shipped .ctehexml projects and legacy .cte files (all in the thorough tier, a seeded slice of 8 of those under 150 kB in the quick tier), as shipped and re-printed from their parsed blocks in another layout (indentation, spacing around '=', CRLF, comment lines, numbers re-spelled with exponents or an explicit sign), where the typed elements (bdl::Data, compared through Debug) must also be identical; printed documents = 1..40 blocks of any of the 53 block types with 0..8 attributes: numbers (integers, decimals, signs, leading/trailing dot, lower and upper case exponents, f32 extremes), bare words, quoted strings (empty, with '=', '$', parentheses, numeric content), one-line and multi-line lists (closing parenthesis on the last item or on its own line), under random indentation, trailing blanks, blank and comment lines, CRLF, and the legacy LIDER preamble; names are identifiers that are not numeric literals; non-trivial = some block has attributes. Besides the Coq cases, three differential tests in Rust (no theorem): MATERIAL / GLASS-TYPE / NAME-FRAME / BUILDING-SHADE / WINDOW blocks with random values, optional attributes (legacy defaults) and attribute order through bdl::Data::new; whole small buildings (FLOOR, POLYGON, SPACE, walls of every kind and location, WINDOW, LAYERS, CONSTRUCTION) with optional attributes left out; KyGananciasSolares.txt in both column layouts with either decimal separator; NewBDL_O.tbl files - every written value must come back bit-exactly".into(),
         stats: json!({"real_files": nreal, "real_files_reprinted": nreprinted, "real_files_typed_elements_compared": ntyped_real, "printed_documents": a.n, "printed_blocks": nblocks, "printed_attributes": nattrs,
                        "attribute_kinds": {"number": kinds[0], "word": kinds[1], "quoted": kinds[2], "list": kinds[3]},
-                       "typed_elements": typed_stats, "typed_documents_in_coq": ntyped, "kyg": kyg_stats, "kyg_files_in_coq": nkyg, "tbl": tbl_stats, "tbl_files_in_coq": ntbl, "buildings": building_stats}),
+                       "typed_elements": typed_stats, "typed_documents_in_coq": ntyped, "kyg": kyg_stats, "kyg_files_in_coq": nkyg, "tbl": tbl_stats, "tbl_files_in_coq": ntbl, "buildings": building_stats, "buildings_in_coq": nbuild}),
     }
 }
